@@ -40,9 +40,11 @@ type Obligation struct {
 	Guard  Term
 	Goal   Term
 	Cut    int
+	Block  int // block the obligation belongs to (-1: none): only declarations of its ancestors are included
 	Cover  bool // cover query: expected NOT unsat
 	Result SolverResult
 	OK     bool
+	Hinted bool
 }
 
 type modLoc struct {
@@ -118,10 +120,13 @@ type FuncVC struct {
 	errs          []string
 	withFrame     bool
 	isInit        bool
-	emitted       map[string]bool
+	emitted       map[string]int
 	dryGlobals    map[string]bool
 	pendingClosed []pendingClosed
 	usedInvPkgs   map[string]bool
+	declBlock     []int // block index that emitted each decl (-1: entry / global)
+	curB          int
+	ancCache      map[int]map[int]bool
 	safety        bool
 	entryFacts    []Term
 }
@@ -138,6 +143,9 @@ func (vc *FuncVC) reset(dry bool) {
 	vc.compOrder = nil
 	vc.dry = dry
 	vc.decls = nil
+	vc.declBlock = nil
+	vc.curB = -1
+	vc.ancCache = nil
 	vc.vals = map[ssa.Value]Term{}
 	vc.tuples = map[ssa.Value][]Term{}
 	vc.reach = map[*ssa.BasicBlock]Term{}
@@ -169,6 +177,7 @@ func (vc *FuncVC) emit(f string, a ...any) {
 	} else {
 		vc.decls = append(vc.decls, fmt.Sprintf(f, a...))
 	}
+	vc.declBlock = append(vc.declBlock, vc.curB)
 }
 
 func (vc *FuncVC) assume(guard, fact Term) {
@@ -177,12 +186,16 @@ func (vc *FuncVC) assume(guard, fact Term) {
 	}
 	line := "(assert " + Implies(guard, fact).S + ")"
 	if vc.emitted == nil {
-		vc.emitted = map[string]bool{}
+		vc.emitted = map[string]int{}
 	}
-	if vc.emitted[line] {
+	if i, dup := vc.emitted[line]; dup {
+		// the same (self-guarded) fact asked for from another block: keep it for every obligation
+		if i < len(vc.declBlock) && vc.declBlock[i] != vc.curB {
+			vc.declBlock[i] = -1
+		}
 		return
 	}
-	vc.emitted[line] = true
+	vc.emitted[line] = len(vc.decls)
 	vc.emit(line)
 }
 
@@ -510,6 +523,8 @@ func (vc *FuncVC) typeFacts(t Term, ty types.Type, depth int) Term {
 		if lo, hi, ok := intBounds(u); ok && t.Sort == SInt {
 			return And(App(SBool, "<=", BigLit(lo), t), App(SBool, "<=", t, BigLit(hi)))
 		}
+	case *types.Pointer:
+		return vc.pointerTyped(t, u)
 	case *types.Slice:
 		return And(vc.sliceWF(t), vc.arrayTyped(t, u))
 	case *types.Struct:
@@ -531,6 +546,7 @@ func (vc *FuncVC) sliceWF(t Term) Term {
 		App(SBool, "<=", App(SInt, "scap", t), BigLit("4611686018427387904")),
 		Implies(Eq(App(SRef, "sarr", t), Null), Eq(App(SInt, "scap", t), IntLit(0))),
 		Eq(App(SInt, "rkind", App(SRef, "sarr", t)), IntLit(0)),
+		Eq(App(SRef, "root", App(SRef, "sarr", t)), App(SRef, "sarr", t)),
 		// a backing array is never the cell of a scalar variable (typed disjointness, see DESIGN T1)
 		Not(App(SBool, "iscell", App(SRef, "root", App(SRef, "sarr", t)))))
 }
@@ -600,6 +616,10 @@ func (vc *FuncVC) globalRefNamed(full string) Term {
 		return t
 	}
 	id := len(vc.globals) + 1
+	// facts about a package-level variable hold everywhere: never sliced by block
+	saveB := vc.curB
+	vc.curB = -1
+	defer func() { vc.curB = saveB }()
 	vc.emit("(declare-const %s Ref)", name)
 	vc.tc.Declare("gid", "(declare-fun gid (Ref) Int)")
 	vc.emit("(assert (and (= (gid %s) %d) (= (rkind %s) 0) (= (root %s) %s) (not (= %s null)) (select %s %s)))",
@@ -643,7 +663,7 @@ func (vc *FuncVC) oblige(kind, label, desc string, pos token.Pos, guard, goal Te
 	vc.kindN[kind]++
 	name := fmt.Sprintf("%s/%s#%d", vc.key, kind, vc.kindN[kind])
 	o := &Obligation{Name: name, Kind: kind, Label: label, Func: vc.key, Where: vc.P.Pos(pos), Desc: desc,
-		Guard: guard, Goal: goal, Cut: len(vc.decls)}
+		Guard: guard, Goal: goal, Cut: len(vc.decls), Block: vc.curB}
 	if goal.S == "true" {
 		return nil
 	}
@@ -667,7 +687,13 @@ func (vc *FuncVC) Query(o *Obligation) string {
 	for _, d := range vc.tc.implementsAxioms() {
 		b.WriteString(d + "\n")
 	}
-	for _, d := range vc.decls[:o.Cut] {
+	anc := vc.ancestors(o.Block)
+	for i, d := range vc.decls[:o.Cut] {
+		// slicing: assertions made in blocks that cannot reach the obligation's block are irrelevant to it
+		// (declarations and definitions are always kept; they constrain nothing)
+		if anc != nil && i < len(vc.declBlock) && vc.declBlock[i] >= 0 && !anc[vc.declBlock[i]] && strings.HasPrefix(d, "(assert") {
+			continue
+		}
 		b.WriteString(d + "\n")
 	}
 	fmt.Fprintf(&b, "; obligation %s (%s) %s\n", o.Name, o.Where, o.Desc)
@@ -696,6 +722,11 @@ func (vc *FuncVC) modPred(mods []modLoc, r Term) Term {
 				Eq(App(SRef, "fld_base", App(SRef, "fld_base", App(SRef, "fld_base", r))), m.t))
 		case "map":
 			ds = append(ds, Eq(r, m.t))
+		case "elems":
+			ds = append(ds, And(Eq(App(SInt, "rkind", r), IntLit(2)), Eq(App(SRef, "elem_base", r), m.t)))
+		case "elems-agg":
+			er := App(SRef, "eroot", r)
+			ds = append(ds, And(Eq(App(SInt, "rkind", er), IntLit(2)), Eq(App(SRef, "elem_base", er), m.t)))
 		case "fieldsof":
 			base := App(SRef, "fld_base", r)
 			c := And(Eq(App(SInt, "rkind", r), IntLit(1)), Eq(App(SInt, "fld_idx", r), IntLit(int64(m.idx))))
@@ -791,6 +822,16 @@ func (vc *FuncVC) modLocOf(x ast.Expr, env *Env, c *Clause) ([]modLoc, error) {
 				if err != nil {
 					return nil, err
 				}
+				if sl, ok := under(v.Ty).(*types.Slice); ok {
+					// element cells of the slice's backing array (only the heaps of the element's leaf sorts)
+					es := vc.tc.SortOf(sl.Elem())
+					leaf := vc.tc.StructInfo(es) == nil && !isArraySort(es)
+					loc := modLoc{kind: "elems", t: App(SRef, "sarr", v.T), sort: es}
+					if !leaf {
+						loc.kind = "elems-agg"
+					}
+					return []modLoc{loc}, nil
+				}
 				return []modLoc{{kind: "obj", t: App(SRef, "sarr", v.T)}}, nil
 			case "fieldsof":
 				// handled below (needs 2+ args)
@@ -836,4 +877,40 @@ func (vc *FuncVC) ghostStateComp(pf *PureFunc) (string, Sort, Sort) {
 func (vc *FuncVC) arrayTyped(t Term, st *types.Slice) Term {
 	arr := App(SRef, "sarr", t)
 	return Or(Eq(arr, Null), Eq(App(SInt, "atype", arr), IntLit(int64(vc.tc.TypeID(st.Elem())))))
+}
+
+// ancestors returns the blocks from which block bi is reachable along forward (non back) edges, itself included.
+func (vc *FuncVC) ancestors(bi int) map[int]bool {
+	if bi < 0 || vc.fn == nil || bi >= len(vc.fn.Blocks) {
+		return nil
+	}
+	if vc.ancCache == nil {
+		vc.ancCache = map[int]map[int]bool{}
+	}
+	if a, ok := vc.ancCache[bi]; ok {
+		return a
+	}
+	a := map[int]bool{bi: true}
+	stack := []*ssa.BasicBlock{vc.fn.Blocks[bi]}
+	for len(stack) > 0 {
+		x := stack[len(stack)-1]
+		stack = stack[:len(stack)-1]
+		for _, p := range x.Preds {
+			if x.Dominates(p) {
+				continue // back edge
+			}
+			if !a[p.Index] {
+				a[p.Index] = true
+				stack = append(stack, p)
+			}
+		}
+	}
+	vc.ancCache[bi] = a
+	return a
+}
+
+// pointerTyped: a non-nil *T value points to a T (pointers of different static element types are different
+// references; interior pointers are distinct terms from the pointer to the enclosing object).
+func (vc *FuncVC) pointerTyped(t Term, pt *types.Pointer) Term {
+	return Or(Eq(t, Null), Eq(App(SInt, "ptype", t), IntLit(int64(vc.tc.TypeID(pt.Elem())))))
 }
